@@ -55,6 +55,10 @@ type Spec struct {
 	// MemLimitMB bounds the heap of one worker (default 6144): exceeding it is
 	// reported as a violation attributed to the current case (W.Begin).
 	MemLimitMB int
+	// RaceFrames, if set, restricts race reports to those whose conflicting
+	// accesses involve a function whose name contains one of these substrings
+	// (the packages the property is about).
+	RaceFrames []string
 	// LogCurrent makes W.Begin write the case to a file before it runs, so
 	// that a fatal error of the worker process can be attributed to it.
 	LogCurrent bool
@@ -665,6 +669,19 @@ func supervise(spec *Spec, tier string) {
 	raceRaw, raceDedup := 0, 0
 	for _, rr := range parseRaceLogs(workDir) {
 		raceRaw += rr.count
+		if len(spec.RaceFrames) > 0 {
+			keep := false
+			for _, f := range spec.RaceFrames {
+				if strings.Contains(rr.key, f) {
+					keep = true
+				}
+			}
+			if !keep {
+				total.Metrics["race_reports_outside_property_scope"] += int64(rr.count)
+				saveText(spec.ID, "race_outside_scope.txt", rr.text)
+				continue
+			}
+		}
 		raceDedup++
 		addV(Violation{Sig: "race:" + rr.key, What: "data race between " + rr.key, Replay: map[string]interface{}{"report": rr.text}, Count: rr.count})
 	}
